@@ -36,12 +36,12 @@ func (interp *Interpreter) importSrc(rPath, importPath string, skipTest bool) (s
 	} else if i := strings.LastIndex("/"+importPath, "/vendor/"); i >= 0 {
 		// As for the go tool, a vendored package is imported by its path below the vendor directory.
 		return "", fmt.Errorf("must be imported as %s", importPath[i+len("vendor/"):])
-	} else if dir, rPath, err = interp.pkgDir(interp.context.GOPATH, interp.mainRoot(rPath), importPath); err != nil {
+	} else if dir, rPath, err = interp.goPkgDir(interp.context.GOPATH, interp.mainRoot(rPath), importPath); err != nil {
 		// Try again, assuming a root dir at the source location.
 		if rPath, err = interp.rootFromSourceLocation(); err != nil {
 			return "", err
 		}
-		if dir, rPath, err = interp.pkgDir(interp.context.GOPATH, rPath, importPath); err != nil {
+		if dir, rPath, err = interp.goPkgDir(interp.context.GOPATH, rPath, importPath); err != nil {
 			return "", err
 		}
 	}
@@ -230,6 +230,34 @@ func (interp *Interpreter) mainRoot(rPath string) string {
 		return noRoot
 	}
 	return rPath
+}
+
+// goPkgDir returns the result of pkgDir, skipping the directories without Go files in the vendor
+// directories: as for the go tool, they are not packages, but the parent directories of packages.
+func (interp *Interpreter) goPkgDir(goPath string, root, importPath string) (string, string, error) {
+	for {
+		dir, rPath, err := interp.pkgDir(goPath, root, importPath)
+		if err != nil || filepath.Base(rPath) != vendor || hasGoFiles(interp.opt.filesystem, dir) {
+			return dir, rPath, err
+		}
+		// Continue from the directory above the one of the vendor directory, if any.
+		if root = filepath.Dir(rPath); root == "." {
+			root = noRoot
+		} else if root = filepath.Dir(root); root == "." {
+			root = ""
+		}
+	}
+}
+
+// hasGoFiles returns true if the directory dir contains Go files.
+func hasGoFiles(filesystem fs.FS, dir string) bool {
+	files, _ := fs.ReadDir(filesystem, dir)
+	for _, file := range files {
+		if !file.IsDir() && strings.HasSuffix(file.Name(), ".go") {
+			return true
+		}
+	}
+	return false
 }
 
 // pkgDir returns the absolute path in filesystem for a package given its import path
